@@ -36,6 +36,9 @@ var Namespaces = []string{"ns1", "ns2", "ns3"}
 // InstallUniverse registers the resources, namespaces and the CRDs of the parents.
 func InstallUniverse(w *World) {
 	s := w.Store
+	// (the one descriptor a scenario changes while it runs - C11's late status
+	// subresource - starts every run in its usual shape)
+	ResThing.Status = true
 	for _, r := range universe {
 		// resources are shared descriptors; the store only reads them
 		s.AddResource(r)
